@@ -336,11 +336,11 @@ class Convert:
             return
         if what == "trigger":
             if ph == "w_assigned":
-                self.emit("wpick %d 1" % tid)
+                self.emit("wpick %d 1 @trig=%d @memseq=%d" % (tid, a, b))
                 self.emit("wunlock %d" % tid)
                 self.phase[tid] = "w_unlocked"
             elif ph in ("idle", "reqflush"):
-                self.emit("trigger")
+                self.emit("trigger @trig=%d @memseq=%d" % (a, b))
             else:
                 self.bad(i, "trigger in phase " + ph)
             return
@@ -351,7 +351,7 @@ class Convert:
             self.phase[tid] = "w_linked"
         elif ph == "w_linked" and what == "w_assign":
             self.cur[tid]["seq"] = a
-            self.emit("wassign %d %d" % (tid, a))
+            self.emit("wassign %d %d @memseq=%d @seq=%d" % (tid, a, b, a))
             nxt = self.next_of_thread(i)
             if nxt is not None and nxt[1] == "trigger":
                 self.phase[tid] = "w_assigned"
@@ -405,7 +405,7 @@ class Convert:
                 return
             self.cur[tid]["ts"] = nxt[2]
             self.cur[tid]["snap"] = i
-            self.emit("snap %d %d" % (tid, nxt[2]))
+            self.emit("snap %d %d @memseq=%d @imm=%d @vis=%d" % (tid, nxt[2], a, b, nxt[2]))
             self.phase[tid] = "r_snapped"
         elif ph == "r_snapped" and what in ("r_mem", "r_imm"):
             self.emit("%s %d %d" % ({"r_mem": "rmem", "r_imm": "rimm"}[what], tid, a))
@@ -439,7 +439,7 @@ class Convert:
             if fl != "idle":
                 self.bad(i, "rollover in flusher phase " + fl)
             self.emit("flock")
-            self.emit("frollover")
+            self.emit("frollover @memseq=%d @seq=%d @imm=1" % (a, b))
             self.fl = "rolled"
         elif fl == "rolled" and what == "link":
             self.emit("flink %d" % a)
@@ -463,7 +463,7 @@ class Convert:
             self.fl = "installed"
         elif fl == "installed" and what == "f_clear":
             self.emit("flock2")
-            self.emit("fclear")
+            self.emit("fclear @trig=%d @imm=0" % a)
             self.fl = "idle"
         elif what == "f_exit":
             self.bad(i, "the memtable thread exited")
@@ -616,18 +616,43 @@ def load_corpus():
 
 
 def model_side(mx, results, workdir, unrepaired=False):
-    p = os.path.join(workdir, "model%s.in" % ("_unrepaired" if unrepaired else ""))
-    with open(p, "w") as fh:
-        for r in results:
-            o = r["po"]["open"] or ["err"]
-            if o[0] != "ok":
-                fh.write("init 2 1 0\nend\n")
-                continue
-            fh.write("init %s %s %s%s\n" % (o[1], o[2], o[3], " unrepaired" if unrepaired else ""))
-            fh.write("\n".join(r["labels"]) + "\nend\n")
-    rc, out = vlib.sh("%s < %s" % (mx, p), timeout=3000)
-    lines = [l for l in out.split("\n") if l.strip()]
-    return lines
+    """replay every recorded trace on the extracted machines; the cases are dealt to several driver
+    processes (longest first) and the verdicts put back in order"""
+    nproc = max(1, min(12, vlib.NCPU - 2, len(results)))
+    order = sorted(range(len(results)), key=lambda i: -len(results[i]["labels"]))
+    buckets = [[] for _ in range(nproc)]
+    loads = [0] * nproc
+    for i in order:
+        j = loads.index(min(loads))
+        buckets[j].append(i)
+        loads[j] += len(results[i]["labels"]) ** 1.3 + 50
+    paths = []
+    for j, idxs in enumerate(buckets):
+        p = os.path.join(workdir, "model%s_%d.in" % ("_unrepaired" if unrepaired else "", j))
+        with open(p, "w") as fh:
+            for i in idxs:
+                r = results[i]
+                o = r["po"]["open"] or ["err"]
+                if o[0] != "ok":
+                    fh.write("init 2 1 0\nend\n")
+                    continue
+                fh.write("init %s %s %s%s\n" % (o[1], o[2], o[3], " unrepaired" if unrepaired else ""))
+                fh.write("\n".join(r["labels"]) + "\nend\n")
+        paths.append(p)
+
+    def one(p):
+        rc, out = vlib.sh("%s < %s" % (mx, p), timeout=3000)
+        return [l for l in out.split("\n") if l.strip()]
+
+    with concurrent.futures.ThreadPoolExecutor(max_workers=nproc) as ex:
+        outs = list(ex.map(one, paths))
+    verdicts = [None] * len(results)
+    for idxs, lines in zip(buckets, outs):
+        if len(lines) != len(idxs):
+            raise RuntimeError("model produced %d verdicts for %d cases: %s" % (len(lines), len(idxs), lines[-3:]))
+        for i, l in zip(idxs, lines):
+            verdicts[i] = l
+    return verdicts
 
 
 def run(chk):
@@ -676,8 +701,8 @@ def run(chk):
         stats["styles"][c.get("style", "?")] = stats["styles"].get(c.get("style", "?"), 0) + 1
         stats["options"][c.get("optname", "?")] = stats["options"].get(c.get("optname", "?"), 0) + 1
         stats["yield"][c["yield"]] = stats["yield"].get(c["yield"], 0) + 1
-        stats["rollovers"] += sum(1 for l in r["labels"] if l == "frollover")
-        stats["triggers"] += sum(1 for l in r["labels"] if l == "trigger" or l.startswith("wpick") and l.endswith(" 1"))
+        stats["rollovers"] += sum(1 for l in r["labels"] if l.startswith("frollover"))
+        stats["triggers"] += sum(1 for l in r["labels"] if l.startswith("trigger") or l.startswith("wpick") and " 1 @" in l)
         stats["parked_writers"] += sum(1 for l in r["labels"] if l.startswith("whead") and l.endswith(" 0"))
         rec = {"tag": tag, "case_line": case_line(c), "replay_cmd": "echo '<case_line>' | work/target/release/c06 /dev/shm/c06_replay"}
         if not r["po"]["ended"] or (r["po"]["open"] or ["x"])[0] != "ok" or any("timeout" in x or "TIMEOUT" in x or "badcmd" in x for x in r["po"]["notes"] + r["raw_tail"]):
